@@ -29,7 +29,7 @@ REAL_VS_STUB = {'real': ['kyupy.logic_sim.LogicSim (s_to_c, c_prop incl. all thr
                 'stub': ['none: the oracle is the same simulator class run callback-free on the cut circuit (no second multi-valued algebra)']}
 ASSUMPTIONS = ['lanes are independent (C06) - the oracle is evaluated per group of lanes that share the same set of injections',
                'an evaluated signal is a line whose driver is a port/state element, a gate, or a fork that is not stripped in this configuration']
-EXPECTED_PROBES = ['injection_changed_result', 'injection_upstream_of_another', 'untouched_callback_run', 'cycle_api', 'multi_cycle', 'lanes_not_multiple_of_8']
+EXPECTED_PROBES = ['plain_repropagation_after_injection', 'injection_changed_result', 'injection_upstream_of_another', 'untouched_callback_run', 'cycle_api', 'multi_cycle', 'lanes_not_multiple_of_8']
 
 
 def gen(rng, tier, i):
@@ -197,6 +197,15 @@ def execute(case):
                 if mask[lane]: set_lane(view, lane, vals[lane], mdim)
             res.fault('F-inj')
     run_in, run_out = drive(sim, wrap_callback(cb, case.get('cb_style', 'function')), case['api'])
+    # back to the fault-free responses WITHOUT assigning again: the input slots are intact after a propagation, so a plain
+    # c_prop() on the same object evaluates everything anew (an injection lives as long as the call it was passed to)
+    if cycles == 1 and case['api'] != 'cycle':
+        sim.c_prop()
+        sim.c_to_s()
+        res.probe('plain_repropagation_after_injection')
+        if not np.array_equal(sim.s[1], ref_out[0]):
+            res.violate('injection-persists-on-object', f'm={m}: s_to_c(); c_prop(inject_cb); c_prop(); c_to_s() on one simulator object differs from the fault-free reference (the plain propagation did not evaluate everything anew)')
+            return res
     # fault-simulation loop: the SAME simulator object, same patterns assigned again, no callback: the fault-free reference
     lsim.assign(sim, mva)
     again_in, again_out = drive(sim, None, case['api'])
